@@ -11,6 +11,8 @@ package frame
 //@ # SplitByHost: every visible entry of the frame goes to exactly one of local / remote / free,
 //@ # decided by the leaseholder bits of its key; nothing is fabricated; with no hidden entries the
 //@ # three outputs together have exactly as many entries as the input.
+//@ # number of visible (not masked) entries among the first n
+//@ spec func SpecVisible(f Frame, n int) int = __ite(n <= 0, 0, SpecVisible(f, n-1) + __ite(f.ShouldExcludeRaw(n-1), 0, 1))
 //@ func (f Frame) SplitByHost(host node.Key) (local Frame, remote Frame, free Frame)
 //@   pragma abstract ShouldExcludeRaw
 //@   requires len(f.RawKeys()) == len(f.RawSeries())
@@ -21,7 +23,7 @@ package frame
 //@   ensures forall i int :: 0 <= i && i < len(f.RawKeys()) && !f.ShouldExcludeRaw(i) && f.RawKeys()[i].Leaseholder() == host ==> (exists j int :: 0 <= j && j < len(local.RawKeys()) && local.RawKeys()[j] == f.RawKeys()[i] && __eq(local.RawSeries()[j], f.RawSeries()[i]))
 //@   ensures forall i int :: 0 <= i && i < len(f.RawKeys()) && !f.ShouldExcludeRaw(i) && f.RawKeys()[i].Leaseholder() != host && f.RawKeys()[i].Leaseholder() == node.KeyFree ==> (exists j int :: 0 <= j && j < len(free.RawKeys()) && free.RawKeys()[j] == f.RawKeys()[i] && __eq(free.RawSeries()[j], f.RawSeries()[i]))
 //@   ensures forall i int :: 0 <= i && i < len(f.RawKeys()) && !f.ShouldExcludeRaw(i) && f.RawKeys()[i].Leaseholder() != host && f.RawKeys()[i].Leaseholder() != node.KeyFree ==> (exists j int :: 0 <= j && j < len(remote.RawKeys()) && remote.RawKeys()[j] == f.RawKeys()[i] && __eq(remote.RawSeries()[j], f.RawSeries()[i]))
-//@   ensures len(local.RawKeys()) + len(remote.RawKeys()) + len(free.RawKeys()) <= len(f.RawKeys())
+//@   ensures len(local.RawKeys()) + len(remote.RawKeys()) + len(free.RawKeys()) == SpecVisible(f, len(f.RawKeys()))
 //@   ensures (forall i int :: 0 <= i && i < len(f.RawKeys()) ==> !f.ShouldExcludeRaw(i)) ==> len(local.RawKeys()) + len(remote.RawKeys()) + len(free.RawKeys()) == len(f.RawKeys())
 //@   modifies nothing
 //@   loop 0 invariant len(local.RawKeys()) == len(local.RawSeries()) && len(remote.RawKeys()) == len(remote.RawSeries()) && len(free.RawKeys()) == len(free.RawSeries())
@@ -31,7 +33,7 @@ package frame
 //@   loop 0 invariant forall i int :: 0 <= i && i < __ri(0) && !f.ShouldExcludeRaw(i) && f.RawKeys()[i].Leaseholder() == host ==> (exists j int :: 0 <= j && j < len(local.RawKeys()) && local.RawKeys()[j] == f.RawKeys()[i] && __eq(local.RawSeries()[j], f.RawSeries()[i]))
 //@   loop 0 invariant forall i int :: 0 <= i && i < __ri(0) && !f.ShouldExcludeRaw(i) && f.RawKeys()[i].Leaseholder() != host && f.RawKeys()[i].Leaseholder() == node.KeyFree ==> (exists j int :: 0 <= j && j < len(free.RawKeys()) && free.RawKeys()[j] == f.RawKeys()[i] && __eq(free.RawSeries()[j], f.RawSeries()[i]))
 //@   loop 0 invariant forall i int :: 0 <= i && i < __ri(0) && !f.ShouldExcludeRaw(i) && f.RawKeys()[i].Leaseholder() != host && f.RawKeys()[i].Leaseholder() != node.KeyFree ==> (exists j int :: 0 <= j && j < len(remote.RawKeys()) && remote.RawKeys()[j] == f.RawKeys()[i] && __eq(remote.RawSeries()[j], f.RawSeries()[i]))
-//@   loop 0 invariant len(local.RawKeys()) + len(remote.RawKeys()) + len(free.RawKeys()) <= __ri(0)
+//@   loop 0 invariant len(local.RawKeys()) + len(remote.RawKeys()) + len(free.RawKeys()) == SpecVisible(f, __ri(0))
 //@   loop 0 invariant (forall i int :: 0 <= i && i < __ri(0) ==> !f.ShouldExcludeRaw(i)) ==> len(local.RawKeys()) + len(remote.RawKeys()) + len(free.RawKeys()) == __ri(0)
 
 //@ # SplitByLeaseholder: one frame per leaseholder present; a frame holds only keys of its node;
